@@ -275,6 +275,9 @@ Gc ==
 \* old packs are deleted; -b writes a bitmap for the new pack
 RepackG(b) ==
     /\ Lvl /\ act' = <<"RepackG", b>> /\ Reach # {}
+    \* (not modelled: a foreign midx that already names the pack git is about to write -- git 2.39 then leaves the
+    \* loose copies behind; and git refusing to work because a midx has offsets for other bytes under a pack's name)
+    /\ ~(midx.on /\ <<Reach, "g">> \in midx.packs \ packs)
     /\ LET new  == <<Reach, "g">>                  \* the same objects always give the same bytes, hence the same name
            gone == packs \ {new}
            nl   == loose \ Reach IN
